@@ -70,13 +70,17 @@ def to_repo_lexicon(lex):
     return out
 
 
-def make_bank(rng, cont, enc):
+def make_bank(rng, cont, enc, parens=False):
     words = ['haus', 'Haus', 'der', 'Der', 'sagt', 'x', 'Maria', 'und', 'Zug',
              'zug', 'a', 'B']
     if rng.random() < 0.5:
         # first character vs. "title case": acronyms, inner capitals, digits
         words += ['NATO', 'McDonald', '3M', 'USA', "O'neil", 'Ab-cd', 'eBay',
                   '-Zeichen', 'ÄB']
+    if parens and rng.random() < 0.3:
+        # the lexicon files carry any word (only lexical rules inside an RCG
+        # grammar would be garbled by brackets, as the writer warns)
+        words += ['(', ')', '-LRB-', '-RRB-', '[', 'f(x)']
     if rng.random() < 0.3:
         # words that look like markup of some file format
         words += ['#', '#1', '%%', '//', ':', '-->']
@@ -487,9 +491,9 @@ def draw(rng, modes):
     fmt = rng.choice(['pmcfg', 'pmcfg', 'rcg', 'rcg', 'lopar'])
     enc = rng.choice(['utf-8', 'utf-8', 'latin-1'])
     cont = fmt == 'lopar' and rng.random() < 0.8
-    case = {'kind': 'api', 'fmt': fmt, 'enc': enc,
-            'lig': fmt != 'lopar' and rng.random() < 0.35,
-            'bank': make_bank(rng, cont, enc)}
+    lig = fmt != 'lopar' and rng.random() < 0.35
+    case = {'kind': 'api', 'fmt': fmt, 'enc': enc, 'lig': lig,
+            'bank': make_bank(rng, cont, enc, parens=not lig)}
     if rng.random() < 0.5:
         m = modes[rng.randrange(len(modes))]
         case['mode'] = [m, rng.choice(['none', 'optimal'])]
@@ -514,7 +518,7 @@ def shard(ctx):
         pool.extend((rank, l) for l in lcfrs.enum_lins(rank, 6))
     for i in ctx.indices(ctx.pick(1500, 250000)):
         run_synthetic(ctx, ctx.rng('syn', i), pool)
-    for i in ctx.indices(ctx.pick(80, 5000)):
+    for i in ctx.indices(ctx.pick(160, 5000)):
         rng = ctx.rng('cli', i)
         case = draw(rng, modes)
         case.pop('mode', None)
@@ -522,9 +526,11 @@ def shard(ctx):
         case['senc'] = rng.choice(['utf-8', 'utf-8', 'latin-1']) \
             if case['enc'] == 'latin-1' else 'utf-8'
         cont_bank = all(_continuous(s) for s in case['bank'])
-        case['sfmt'] = rng.choice(['export', 'export', 'tigerxml',
-                                   'discobrackets']
-                                  + (['brackets'] * 2 if cont_bank else []))
+        paren_words = any(ch in t['w'] for s in case['bank']
+                          for t in gen.tokens_of(s['root']) for ch in '()')
+        case['sfmt'] = rng.choice(['export', 'export', 'tigerxml'] + (
+            [] if paren_words else
+            ['discobrackets'] + (['brackets'] * 2 if cont_bank else [])))
         case['sgz'] = case['sfmt'] != 'tigerxml' and rng.random() < 0.15
         if rng.random() < 0.3:
             case['sopts'] = [rng.choice(['continuous', 'brackets_firstid:7'])]
